@@ -316,6 +316,12 @@ pub fn k9(dir: &str, thorough: bool, seed: u64) {
         if formulas.is_empty() {
             formulas.push(s("true"));
         }
+        // planted: sibling scopes of different nesting depth (the shallow one first), so that the number of variable sets the
+        // tool allocates must come from the deepest scope
+        if i % 3 == 0 && !use_ctx {
+            let a0 = names[0].clone();
+            formulas.push(format!("(!{{x}}: AX {{x}}) & (!{{x}}: 3{{y}}: (@{{y}}: (~{{x}} & EF ({{x}} | {a0}))))"));
+        }
         // file layout with comments / blanks / surrounding whitespace
         let mut ftext = String::from("# generated\n\n");
         for f in &formulas {
@@ -328,7 +334,8 @@ pub fn k9(dir: &str, thorough: bool, seed: u64) {
             .iter()
             .map(|f| parse_and_minimize_extended_formula(xg0.graph.symbolic_context(), f).unwrap())
             .collect();
-        let kmax = trees.iter().map(|t| collect_unique_hctl_vars(t.clone()).len()).max().unwrap_or(0);
+        // the nesting depth is computed by the harness itself (not with the library's collector)
+        let kmax = trees.iter().map(|t| crate::front::quant_depth(t)).max().unwrap_or(0);
         let Ok(xg) = Xg::new(name, &bn_used.to_string(), kmax) else { continue };
         let ctx = if use_ctx { rand_ctx(&mut rng, &xg, &["p", "q", "d", "e"]) } else { Ctx::new() };
         let cpath = scratch(dir, &format!("c{i}.zip"));
@@ -348,12 +355,14 @@ pub fn k9(dir: &str, thorough: bool, seed: u64) {
         out.oracle(code == Some(0) && !stderr.contains("panicked"), "C17", "the tool crashed on valid input", &format!("{what} :: {stderr}"));
         // library results on the same graph
         let fs: Vec<&str> = formulas.iter().map(|x| x.as_str()).collect();
-        let lib = if use_ctx {
-            model_check_multiple_extended_formulae_dirty(fs.clone(), &xg.graph, &ctx)
-        } else {
-            model_check_multiple_formulae_dirty(fs.clone(), &xg.graph)
-        };
-        let Ok(lib) = lib else {
+        let lib = guarded(std::panic::AssertUnwindSafe(|| {
+            if use_ctx {
+                model_check_multiple_extended_formulae_dirty(fs.clone(), &xg.graph, &ctx)
+            } else {
+                model_check_multiple_formulae_dirty(fs.clone(), &xg.graph)
+            }
+        }));
+        let Ok(Ok(lib)) = lib else {
             out.oracle(false, "C17", "library failed where the tool was expected to work", &what);
             continue;
         };
